@@ -356,9 +356,24 @@ const readCSVRaw = `// convFromStrs converts a []string to a slice of the Dtype 
 func convFromStrs(to Dtype, record []string, into interface{}) (interface{}, error) {
 	var err error
 	switch to.Kind() {
+	case reflect.Bool:
+		retVal := make([]bool, len(record))
+		var backing []bool
+		if into == nil {
+			backing = make([]bool, 0, len(record))
+		}else{
+			backing = into.([]bool)
+		}
+
+		for i, v := range record {
+			if retVal[i], err = strconv.ParseBool(v); err != nil {
+				return nil, err
+			}
+		}
+		backing = append(backing, retVal...)
+		return backing, nil
 		{{range .Kinds -}}
 		{{if isNumber . -}}
-		{{if isOrd . -}}
 	case reflect.{{reflectKind .}}:
 		retVal := make([]{{asType .}}, len(record))
 		var backing []{{asType .}}
@@ -391,11 +406,20 @@ func convFromStrs(to Dtype, record []string, into interface{}) (interface{}, err
 					return nil, err
 				}
 				retVal[i] = {{asType .}}(u)
+			{{else if eq .String "complex128" -}}
+				if retVal[i], err = strconv.ParseComplex(v, 128); err != nil {
+					return nil, err
+				}
+			{{else if eq .String "complex64" -}}
+				var c complex128
+				if c, err = strconv.ParseComplex(v, 64); err != nil {
+					return nil, err
+				}
+				retVal[i] = complex64(c)
 			{{end -}}
 		}
 		backing = append(backing, retVal...)
 		return backing, nil
-		{{end -}}
 		{{end -}}
 		{{end -}}
 	case reflect.String:
